@@ -373,7 +373,9 @@ func startFwd(c fwdCfg) (*fwd, error) {
 	if err != nil {
 		return nil, err
 	}
-	rt.DialContext = forwarder.VerifDialer(&tcfg.DialConfig, f.dial).DialContext
+	dcfg := tcfg.DialConfig
+	dcfg.PromRegistry, dcfg.PromNamespace = f.reg, "vh" // the dialer's gauges are read from the proxy's registry
+	rt.DialContext = forwarder.VerifDialer(&dcfg, f.dial).DialContext
 
 	p, err := forwarder.NewHTTPProxy(cfg, pr, cm, rt, flog.NopLogger, nil)
 	if err != nil {
